@@ -23,7 +23,15 @@ exception Model_err of string
 let kind_of e = match e with OutOfBounds -> "oob" | ReadUninit -> "uninit" | OutOfFuel -> "timeout"
 let get r = match r with Ok a -> a | Err e -> raise (Model_err (kind_of e))
 
+(* sweeps: prefix ++ [v] ++ suffix for every byte v *)
+let sweep pre suf (f : z list -> string) : string =
+  let p = bytes_of_hex pre and s = bytes_of_hex suf in
+  String.concat " " (List.init 256 (fun v -> f (p @ (z_of_int v :: s))))
+
 let model_op toks : string = match toks with
+  | ["u8sw"; p; s] ->
+      sweep p s (fun b -> dec_of_z (get (from_string b))) ^ " " ^ sweep p s (fun b -> bit (get (is_valid b)))
+  | ["b64sw"; p; s] -> sweep p s (fun b -> hexz (get (from_base64 b)))
   | ["u8enc"; cp] -> hexz (to_string (z_of_dec cp))
   | ["u8encn"; cps] -> hexz (to_string_n (cps_of_tok cps))
   | ["u8len"; b] -> dec_of_z (utf8_length (z_of_dec b))
@@ -55,6 +63,10 @@ let valued lo hi s = match ref_value s with
   | None -> "?"
 
 let spec_op toks : string = match toks with
+  | ["u8sw"; p; s] ->
+      sweep p s (fun b -> match utf8_first b with Some cp -> dec_of_z cp | None -> "?") ^ " " ^
+      sweep p s (fun b -> if utf8_text b then "1" else if layout_valid b then "?" else "0")
+  | ["b64sw"; p; s] -> sweep p s (fun b -> match rfc4648_preimage b with Some bs -> hexz bs | None -> "?")
   | ["u8enc"; cp] -> let c = z_of_dec cp in if is_cp c then hexz (rfc3629 c) else "?"
   | ["u8encn"; cps] ->
       let l = cps_of_tok cps in
